@@ -366,3 +366,178 @@ Example C10_nonvacuous :
   qnd (plQ (fun x => x) (fun x => x) [true; false; true; true] f0 2 [3; 9; 1; 3]%Z) = [1 # 2; 0 # 1; 0 # 1; 1 # 2]%Q /\
   greedy QcF (plQ (fun x => x) (fun x => x) [true; false; true; true] f0 2 [3; 9; 1; 3]%Z) = 0%nat.
 Proof. vm_compute. repeat split. Qed.
+
+From RL4CO Require Import Base.OFieldExtra Decoding.Entropy Decoding.EntropyInst Decoding.BatchGuards.
+Local Open Scope nat_scope.
+
+(* ================================================================ calculate_entropy: the VALUE (Decoding/Entropy.v)
+   lg : K -> K is any logarithm: lg 1 = 0, lg (x y) = lg x + lg y, strictly increasing on the positive numbers (instance: ln on R).
+     nplp lg p = 0 if p = 0 else - p * lg p ;  entropy lg v = sum_i nplp lg v_i ;  entropy_steps lg vs = sum_t entropy lg vs_t
+     dist v = every entry >= 0 and the entries add up to 1 ;  point_mass v = one entry is 1, all others 0
+     uniform_on m = 1 / (number of true entries of m) on the true entries of the mask m, 0 elsewhere *)
+(* the entropy of a probability vector is non-negative *)
+Theorem C10_entropy_nonneg :
+  forall (K : ofield) (lg : K -> K),
+  lg f1 = f0 ->
+  (forall x y : K, flt f0 x -> flt x y -> flt (lg x) (lg y)) ->
+  forall v : list K, dist v -> fle f0 (entropy lg v).
+Proof. exact entropy_nonneg. Qed.
+Print Assumptions C10_entropy_nonneg.
+
+(* ... and zero exactly for the point masses *)
+Theorem C10_entropy_zero_iff_point_mass :
+  forall (K : ofield) (lg : K -> K),
+  lg f1 = f0 ->
+  (forall x y : K, flt f0 x -> flt x y -> flt (lg x) (lg y)) ->
+  forall v : list K, dist v -> entropy lg v = f0 <-> point_mass v.
+Proof. exact entropy_zero_iff. Qed.
+Print Assumptions C10_entropy_zero_iff_point_mass.
+
+(* the uniform distribution over the k feasible actions of a mask has entropy lg k *)
+Theorem C10_entropy_uniform :
+  forall (K : ofield) (lg : K -> K),
+  lg f1 = f0 ->
+  (forall x y : K, flt f0 x -> flt f0 y -> lg (x * y)%of = (lg x + lg y)%of) ->
+  forall m : list bool, 1 <= ntrue m -> entropy lg (uniform_on m) = lg (of_nat (ntrue m)).
+Proof. exact entropy_uniform. Qed.
+Print Assumptions C10_entropy_uniform.
+
+(* the episode: sum over the decoding steps *)
+Theorem C10_episode_entropy_nonneg :
+  forall (K : ofield) (lg : K -> K),
+  lg f1 = f0 ->
+  (forall x y : K, flt f0 x -> flt x y -> flt (lg x) (lg y)) ->
+  forall vs : list (list K), (forall v : list K, In v vs -> dist v) -> fle f0 (entropy_steps lg vs).
+Proof. exact entropy_steps_nonneg. Qed.
+Print Assumptions C10_episode_entropy_nonneg.
+
+(* the same for the output of process_logits (any mask with a feasible action, any filter setting).  Further lemmas of
+   Decoding/Entropy.v / BatchGuards.v not repeated here (every Print Assumptions costs ~0.4 s per run): uniform_on_dist,
+   entropy_steps_zero_iff, pl_uniform, guard_batch_one_bad_row, greedy_batch_some_iff, sampling_batch_terminates,
+   entropy_guard_one_bad_row *)
+Theorem C10_process_logits_entropy_nonneg :
+  forall (K : ofield) (lg : K -> K),
+  lg f1 = f0 ->
+  (forall x y : K, flt f0 x -> flt x y -> flt (lg x) (lg y)) ->
+  forall (L : Type) (lleb : L -> L -> bool) (e : L -> K),
+  (forall x : L, flt f0 (e x)) ->
+  (forall x y : L, lleb x y = (e x <=? e y)%of) ->
+  forall (clip tmp : L -> L) (mask : list bool) (p : K) (k : nat) (logits : list L),
+  pl_wf L mask logits -> fle f0 (entropy lg (process_logits K L lleb e clip tmp mask p k logits)).
+Proof. exact pl_entropy_nonneg. Qed.
+Print Assumptions C10_process_logits_entropy_nonneg.
+
+Theorem C10_process_logits_entropy_zero_iff :
+  forall (K : ofield) (lg : K -> K),
+  lg f1 = f0 ->
+  (forall x y : K, flt f0 x -> flt x y -> flt (lg x) (lg y)) ->
+  forall (L : Type) (lleb : L -> L -> bool) (e : L -> K),
+  (forall x : L, flt f0 (e x)) ->
+  (forall x y : L, lleb x y = (e x <=? e y)%of) ->
+  forall (clip tmp : L -> L) (mask : list bool) (p : K) (k : nat) (logits : list L),
+  pl_wf L mask logits ->
+  entropy lg (process_logits K L lleb e clip tmp mask p k logits) = f0 <->
+  point_mass (process_logits K L lleb e clip tmp mask p k logits).
+Proof. exact pl_entropy_zero_iff. Qed.
+Print Assumptions C10_process_logits_entropy_zero_iff.
+
+(* all feasible logits equal (after clipping and temperature), filters off: process_logits returns the uniform distribution over the
+   feasible actions, whose entropy is lg (number of feasible actions) *)
+Theorem C10_process_logits_uniform_entropy :
+  forall (K : ofield) (lg : K -> K),
+  lg f1 = f0 ->
+  (forall x y : K, flt f0 x -> flt f0 y -> lg (x * y)%of = (lg x + lg y)%of) ->
+  forall (L : Type) (lleb : L -> L -> bool) (e : L -> K),
+  (forall x : L, flt f0 (e x)) ->
+  forall (clip tmp : L -> L) (y : L) (mask : list bool) (logits : list L),
+  (forall x : L, In x logits -> tmp (clip x) = y) ->
+  length mask = length logits ->
+  1 <= ntrue mask -> entropy lg (process_logits K L lleb e clip tmp mask f0 0 logits) = lg (of_nat (ntrue mask)).
+Proof. exact pl_uniform_entropy. Qed.
+Print Assumptions C10_process_logits_uniform_entropy.
+
+(* the real logarithm meets the hypotheses (so the statements above hold for the real softmax with lg = ln), and the value on the
+   uniform distribution spelled out; ONE theorem, because every Print Assumptions that reaches Coq.Reals costs seconds *)
+Theorem C10_entropy_instance_R :
+  (ln (f1 (o := RF)) = f0 (o := RF) /\
+   (forall x y : RF, flt f0 x -> flt f0 y -> ln (fmul x y) = fadd (o := RF) (ln x) (ln y)) /\
+   (forall x y : RF, flt f0 x -> flt x y -> flt (K := RF) (ln x) (ln y))) /\
+  (forall v : list R, dist (K := RF) v -> fle (K := RF) f0 (entropy (K := RF) ln v)) /\
+  (forall m : list bool, (1 <= ntrue m)%nat -> entropy (K := RF) ln (uniform_on (K := RF) m) = ln (of_nat (K := RF) (ntrue m))).
+Proof. exact (conj (conj R_ln_1 (conj R_ln_mul R_ln_incr)) (conj entropyR_nonneg entropyR_uniform)). Qed.
+Print Assumptions C10_entropy_instance_R.
+
+(* the audit's input: calculate_entropy(log([[[.5, .5]]])) = + ln 2 *)
+Example C10_ex_entropy_half_half_R : entropy (K := RF) ln [(1 / 2)%R; (1 / 2)%R] = ln 2.
+Proof. exact entropyR_half_half. Qed.
+
+(* ================================================================ guards that look at a whole batch (Decoding/BatchGuards.v)
+     sel_ok msk a = nth a msk false                    the action selected for a row is allowed by that row's mask
+     guard_batch masks sel                             `not (~mask).gather(1, selected).any()`
+     greedy_batch rows = Some actions / None           DecodingStrategy.greedy(logprobs, mask) returns / raises
+     sampling_batch masks rounds                       DecodingStrategy.sampling(logprobs, mask): rounds = successive multinomial draws
+     entropy_guard rows                                `entropy.isfinite().all()` on rows of entry classes (2 = +inf) *)
+(* the guard passes iff EVERY row's selected action is allowed by that row's mask *)
+Theorem C10_batch_guard_is_the_conjunction_of_the_row_verdicts :
+  forall (masks : list (list bool)) (sel : list nat),
+  length sel = length masks ->
+  guard_batch masks sel = true <->
+  (forall r : nat, r < length masks -> sel_ok (nth r masks []) (nth r sel 0) = true).
+Proof. exact guard_batch_iff. Qed.
+Print Assumptions C10_batch_guard_is_the_conjunction_of_the_row_verdicts.
+
+(* ... and raises iff SOME row's arg-max is masked *)
+Theorem C10_greedy_batch_raises_iff :
+  forall (K : ofield) (rows : list (list K * list bool)),
+  greedy_batch rows = None <->
+  (exists r : list K * list bool, In r rows /\ sel_ok (snd r) (greedy K (fst r)) = false).
+Proof. exact greedy_batch_none_iff. Qed.
+Print Assumptions C10_greedy_batch_raises_iff.
+
+(* on the distributions process_logits makes from the same masks the guard never fires (confinement, lifted to the batch) *)
+Theorem C10_greedy_batch_never_raises_on_process_logits :
+  forall (K : ofield) (L : Type) (lleb : L -> L -> bool) (e : L -> K),
+  (forall x : L, flt f0 (e x)) ->
+  (forall x y : L, lleb x y = (e x <=? e y)%of) ->
+  forall (clip tmp : L -> L) (p : K) (k : nat) (ins : list (list bool * list L)),
+  (forall ml : list bool * list L, In ml ins -> pl_wf L (fst ml) (snd ml)) ->
+  let rows :=
+    map (fun ml : list bool * list L => (process_logits K L lleb e clip tmp (fst ml) p k (snd ml), fst ml)) ins
+    in
+  greedy_batch rows = Some (map (fun r : list K * list bool => greedy K (fst r)) rows).
+Proof. exact greedy_batch_of_process_logits. Qed.
+Print Assumptions C10_greedy_batch_never_raises_on_process_logits.
+
+(* sampling with a mask returns the FIRST round of draws in which every row's draw is allowed *)
+Theorem C10_sampling_batch_returns_first_feasible_round :
+  forall (masks : list (list bool)) (rounds : list (list nat)) (sel : list nat),
+  sampling_batch masks rounds = Some sel ->
+  guard_batch masks sel = true /\
+  (exists j : nat,
+     nth_error rounds j = Some sel /\
+     (forall (i : nat) (s : list nat), i < j -> nth_error rounds i = Some s -> guard_batch masks s = false)).
+Proof. exact sampling_batch_first_feasible. Qed.
+Print Assumptions C10_sampling_batch_returns_first_feasible_round.
+
+Theorem C10_entropy_guard_is_the_conjunction_of_the_row_verdicts :
+  forall rows : list (list nat),
+  entropy_guard rows = true <-> (forall r : list nat, In r rows -> ent_row_finite r = true).
+Proof. exact entropy_guard_iff. Qed.
+Print Assumptions C10_entropy_guard_is_the_conjunction_of_the_row_verdicts.
+
+(* non-vacuity: the executable entropy (lnQ: fixed-point approximation of ln, exact multiples of ln2Q on powers of two) and the
+   audit's batches *)
+Example C10_ex_entropy :
+  eqQ (entropyQ [qc 1 2; qc 1 2]) ln2Q = true /\ eqQ (entropyQ [0%Qc; 1%Qc; 0%Qc]) 0%Qc = true /\
+  eqQ (entropyQ [qc 1 2; qc 1 4; qc 1 4; 0%Qc]) (qc 3 2 * ln2Q)%Qc = true /\
+  closeQ (entropyQ [qc 1 3; qc 1 3; qc 1 3]) (Q2Qc (10986122886681098 # 10000000000000000)) (Q2Qc (1 # 1000000000)) = true /\
+  qnd (plQ (fun z => z) (fun z => z) [true; false; true; true] f0 0 [4; 9; 4; 4]%Z) = [1 # 3; 0 # 1; 1 # 3; 1 # 3]%Q /\
+  qnd (uniform_on (K := QcF) [true; false; true; true]) = [1 # 3; 0 # 1; 1 # 3; 1 # 3]%Q.
+Proof. vm_compute. repeat split. Qed.
+Example C10_ex_batch_guards :
+  guard_batch [[true; false]; [true; true]] [1; 0]%nat = false /\
+  greedy_batch (K := QcF) [([qc 1 4; qc 3 4], [true; false]); ([qc 3 4; qc 1 4], [true; true])] = None /\
+  greedy_batch (K := QcF) [([qc 3 4; qc 1 4], [true; false]); ([qc 3 4; qc 1 4], [true; true])] = Some [0; 0]%nat /\
+  sampling_batch [[true; false]; [true; true]] [[1; 0]; [1; 1]; [0; 0]]%nat = Some [0; 0]%nat /\
+  entropy_guard [[0; 0]; [2; 0]]%nat = false.
+Proof. vm_compute. repeat split. Qed.
